@@ -1,7 +1,8 @@
 SPECIFICATION GenSpec
 CONSTANTS
-  MaxSrv = 6
+  MaxSrv = 5
   MaxCli = 2
+  ReqBuf = 16
   Cfgs <- AllCfgs
   Lite = "srv"
 VIEW AbsView
